@@ -35,8 +35,8 @@ def main(path):
         print('no failing input recorded (no-failing-input-found): nothing to replay natively')
         return 0
     for f in fi:
-        code, out = W.replay(f['family'], f.get('cfg', 0), f.get('cap', 0), f['input_hex'])
-        print('--- replay family=%s cfg=%s cap=%s input=%s' % (f['family'], f.get('cfg'), f.get('cap'), f.get('input')))
+        code, out = W.replay(f['family'], f.get('cfg', 0), f.get('cap', 0), f['input_hex'], (f.get('backends') or ['default'])[0])
+        print('--- replay family=%s cfg=%s cap=%s back-end build=%s input=%s' % (f['family'], f.get('cfg'), f.get('cap'), (f.get('backends') or ['default'])[0], f.get('input')))
         print(out.strip()[:3000])
         print('=> %s' % ('STILL DISAGREES with the oracle' if code == 1 else 'agrees with the oracle on this tree' if code == 0 else 'replay error'))
         rc = max(rc, 1 if code == 1 else 0)
